@@ -1,4 +1,4 @@
-from dataclasses import dataclass, field
+from dataclasses import dataclass, field, replace
 from typing import TYPE_CHECKING, Iterable, List, NamedTuple, Optional, Tuple, Union
 
 from . import box, errors
@@ -197,8 +197,9 @@ class Table(JupyterMixin):
             if isinstance(header, str):
                 self.add_column(header=header)
             else:
-                header._index = len(self.columns)
-                append_column(header)
+                # a Column holds the cells of its table: this table gets a column of its own,
+                # so that the same definitions can be used for several tables
+                append_column(replace(header, _index=len(self.columns), _cells=[]))
 
     @classmethod
     def grid(
